@@ -291,6 +291,14 @@ func (h *Sources) Cycle(next bool) {
 		return
 	}
 
+	previous := h.Name()
+
+	// The line being typed does not belong to any source: its saved
+	// states follow the user to the source that becomes the active one.
+	defer func() {
+		h.moveLineBuffer(previous, h.Name())
+	}()
+
 	switch next {
 	case true:
 		h.sourcePos++
@@ -305,6 +313,27 @@ func (h *Sources) Cycle(next bool) {
 			h.sourcePos = len(h.names) - 1
 		}
 	}
+}
+
+// moveLineBuffer hands the saved states of the line being typed
+// (not those of history lines) from a source over to another.
+func (h *Sources) moveLineBuffer(from, to string) {
+	if from == to || h.lines == nil {
+		return
+	}
+
+	states, found := h.lines[from][-1]
+	if !found {
+		return
+	}
+
+	delete(h.lines[from], -1)
+
+	if h.lines[to] == nil {
+		h.lines[to] = make(map[int]*lineHistory)
+	}
+
+	h.lines[to][-1] = states
 }
 
 // OnLastSource returns true if the currently active
